@@ -559,6 +559,8 @@ func (c Component) HashInto(h hash.Hash) {
 	tbuf := []byte{0, 0, 0, 0, 0, 0, 0, 0}
 	binary.BigEndian.PutUint64(tbuf, uint64(c.Typ))
 	h.Write(tbuf)
+	binary.BigEndian.PutUint64(tbuf, uint64(len(c.Val)))
+	h.Write(tbuf)
 	h.Write(c.Val)
 }
 
